@@ -177,28 +177,25 @@ class CouplingLevyCopulaSimulation:
             u = self.coupling_process._uniform.sample()
 
             projected_position = CoordinateND(position[k] for k in axis_coordinates)
-            projected_value = tuple(value[k] for k in axis_coordinates)
 
-            projected_mid_left_value = grid.middle(
-                grid.left_point(projected_position), projected_value
-            )
-            projected_mid_right_value = grid.middle(
-                projected_value, grid.right_point(projected_position)
-            )
-            total_mass = mass(
-                projected_mid_left_value, projected_mid_right_value, axis_coordinates
-            )
+            # the cell of the fine state is split, along the coordinates to project, at the state itself: each piece
+            # belongs to the cell of one coarse state. The probabilities are the masses of the pieces of this very
+            # cell (not of the margin over the other coordinates), so that the coarse path keeps the law of the
+            # coarse chain
+            mid_left_value = grid.middle(grid.left_point(position), value)
+            mid_right_value = grid.middle(value, grid.right_point(position))
+            total_mass = mass(mid_left_value, mid_right_value)
 
             probability = 0
             for p in product([-1, 1], repeat=len(axis_coordinates)):
                 p_value = grid[projected_position + p]
-                p_middle_value = grid.middle(p_value, projected_value)
-                min_max = tuple(
-                    (min(p1, p2), max(p1, p2))
-                    for p1, p2 in zip(projected_value, p_middle_value)
-                )
-                p_left_value, p_right_value = zip(*min_max)
-                p_mass = mass(p_left_value, p_right_value, axis_coordinates)
+                p_left_value, p_right_value = list(mid_left_value), list(mid_right_value)
+                for k, direction in zip(axis_coordinates, p):
+                    if direction < 0:
+                        p_right_value[k] = value[k]
+                    else:
+                        p_left_value[k] = value[k]
+                p_mass = mass(p_left_value, p_right_value)
                 probability += p_mass / total_mass
                 if u <= probability:
                     res = tuple(
@@ -211,7 +208,7 @@ class CouplingLevyCopulaSimulation:
 
             raise ValueError(
                 "couplinglevycopula::__coupling_state -> Numerical error? probability={:6f}, u={:6f}".format(
-                    probability, u
+                    float(probability), float(np.squeeze(u))
                 )
             )
 
